@@ -311,6 +311,9 @@ func init() {
 			{Pkg: walletPkg, Fn: "ZzC15Startup2", Tiers: "qt", Reach: []string{"c15-end", "wallet-tx-orphaned", "birthday-block-orphaned"}, Bound: "depth 2 while stopped"},
 			{Pkg: walletPkg, Fn: "ZzC15StartupRecovery1", Tiers: "qt", Reach: []string{"c15-end", "wallet-tx-orphaned", "new-branch-longer"}, Bound: "wallet started in recovery mode (window 1) after a reorg of depth 1 while stopped, new branch 0..2 blocks longer than the old one, wallet tx in any of 3 blocks"},
 			{Pkg: walletPkg, Fn: "ZzC15StartupRecovery2", Tiers: "t", Reach: []string{"c15-end", "wallet-tx-orphaned", "new-branch-longer"}, Bound: "the same at depth 2"},
+			{Pkg: walletPkg, Fn: "ZzC15StartupFault1", Tiers: "qt", Reach: []string{"c15-end", "fault-hit", "fault-not-reached", "wallet-tx-orphaned"}, Bound: "reorg of depth 1 while stopped; the k-th database write (k symbolic < 48) of the first syncWithChain fails, the error is reported, the process restarts (database reopened) and synchronises again: same outcome as without the fault"},
+			{Pkg: walletPkg, Fn: "ZzC15StartupFault2", Tiers: "t", Reach: []string{"c15-end", "fault-hit", "wallet-tx-orphaned"}, Bound: "the same at depth 2"},
+			{Pkg: walletPkg, Fn: "ZzC15StartupRetry1", Tiers: "qt", Reach: []string{"c15-end", "fault-hit", "retried-in-the-same-process", "wallet-tx-orphaned"}, Bound: "the same, but the SAME process tries again after the failed attempt (the retry loop of handleChainNotifications): what the failed, rolled-back attempt left in memory must not mislead the second one"},
 			{Pkg: walletPkg, Fn: "ZzC15Startup3", Tiers: "qt", Reach: []string{"c15-end", "wallet-tx-orphaned", "birthday-block-orphaned"}, Bound: "depth 3 while stopped"},
 			{Pkg: walletPkg, Fn: "ZzC15TxBelowTipL1", Tiers: "qt", Sched: true, Reach: []string{"c15-end", "reorg-2", "reorg-started-during-rescan", "wallet-tx-unconfirmed-by-reorg"}, Bound: "a wallet transaction confirmed one block below the tip (connect with tx, connect), then any 1 evolution"},
 			{Pkg: walletPkg, Fn: "ZzC15RescanFinishedThenReorg", Tiers: "qt", Sched: true, Reach: []string{"c15-end", "wallet-tx-unconfirmed-by-reorg"}, Bound: "initial rescan running through the real rescan batch/RPC/progress goroutines; RescanFinished followed at once or after a pause by a depth-1 reorg of the block holding the wallet transaction; every interleaving without preemptive switches (switches at blocking points are free)"},
